@@ -50,6 +50,7 @@ func (e *Exec) load(st *State, addr *smt.Term, t types.Type) *smt.Term {
 		fid := int(addr.Args[1].Val)
 		key := e.W.fieldInfo[fid].key
 		hs := e.fieldHeapSort(fid)
+		e.partialAxioms(e.heap(st, key, hs), addr.Args[0])
 		v = smt.Select(e.heap(st, key, hs), addr.Args[0])
 		v0 = smt.Select(e.heapInit(key, hs), addr.Args[0])
 	case e.isCtor(addr, "elm"):
